@@ -22,6 +22,10 @@ func genDeepReq(r *Rng, b *baseGen, output string, first uint64, minSeg, maxSeg 
 	}
 	lo := max(gi.outInit, gi.lowest, first)
 	q := ReqSpec{Output: output, SegSize: b.seg, Workers: uint64(r.Range(1, 4)), Prod: r.Chance(3, 5)}
+	if deepMode && r.Chance(1, 3) {
+		maxSeg = maxSeg*2 + 2
+		q.Workers = uint64(r.Range(1, 6))
+	}
 	nseg := uint64(r.Range(minSeg, maxSeg))
 	base := gi.lowest - gi.lowest%b.seg
 	start := base + nseg*b.seg + uint64(r.Intn(int(b.seg)))
